@@ -110,7 +110,8 @@ func (ex *Exec) call(f *Frame, st *State, x *ssa.Call, b *ssa.BasicBlock, i int,
 		short = short[k+1:]
 	}
 	if f.con != nil && f.depth == 0 {
-		for k, c := range f.con.CallAsserts[fmt.Sprintf("%s#%d", short, ord)] {
+		cas := append(append([]Clause(nil), f.con.CallAsserts[fmt.Sprintf("%s#%d", short, ord)]...), f.con.CallAsserts[short+"#*"]...)
+		for k, c := range cas {
 			ec := ex.ectx(f, st)
 			for pn, pb := range ex.paramBindings(callee, sig, c0.IsInvoke(), args) {
 				// the caller's names win (a recursive call has the same parameter names)
@@ -245,7 +246,7 @@ func (ex *Exec) calleeCtx(f *Frame, st, old *State, callee *ssa.Function, vars m
 	} else if f.fn.Pkg != nil {
 		pkg = f.fn.Pkg.Pkg
 	}
-	return &ExprCtx{w: ex.w, cs: ex.prog.CS, st: st, old: old, vars: vars, pkg: pkg}
+	return &ExprCtx{w: ex.w, cs: ex.prog.CS, st: st, old: old, vars: vars, pkg: pkg, fnName: ex.prog.funcName, global: ex.globalTV(f, st)}
 }
 
 func (ex *Exec) checkRequires(f *Frame, st *State, x ssa.Instruction, con *Contract, name string, ord int, callee *ssa.Function, sig *types.Signature, args []Val) map[string]Binding {
